@@ -134,6 +134,12 @@ package interp
 // are the function's own classification of the parameter, pinned down for
 // "@" and "*" by the first clauses; for the rest it is the contract of Get.
 //@ func (*ExecEnv).expandParam
+//@   assert[C13] at call interp.(*field).join#1: the-result-of-an-expansion-is-quoted-only-inside-double-quotes: arg2 == (mode&Quote != 0)
+//@   assert[C13] at call interp.(*field).join#2: the-result-of-an-expansion-is-quoted-only-inside-double-quotes: arg2 == (mode&Quote != 0)
+//@   assert[C13] at call interp.(*field).join#3: the-result-of-an-expansion-is-quoted-only-inside-double-quotes: arg2 == (mode&Quote != 0)
+//@   assert[C13] at call interp.(*field).join#4: the-result-of-an-expansion-is-quoted-only-inside-double-quotes: arg2 == quote
+//@   assert[C13] at call interp.(*field).join#5: the-result-of-an-expansion-is-quoted-only-inside-double-quotes: arg2 == quote
+//@   assert[C13] at call interp.(*field).join#6: the-result-of-an-expansion-is-quoted-only-inside-double-quotes: arg2 == (mode&Quote != 0)
 //@   requires len(fields) >= 1 && pe != nil
 //@   ensures result1 == nil ==> len(result0) >= 1
 //@   site PARAM = label Param
